@@ -46,7 +46,8 @@ func genSched(rng *rand.Rand, tier string, stalls bool) SchedKnobs {
 			k.Disabled = append(k.Disabled, allYieldPoints[rng.Intn(len(allYieldPoints))])
 		}
 	}
-	k.AutoOff = rng.Intn(3) == 0 // autoyield builds only: a third of the runs keep the coarser, hand-placed granularity
+	k.AutoOff = rng.Intn(3) == 0                  // autoyield builds only: a third of the runs keep the coarser, hand-placed granularity
+	k.AutoNested = !k.AutoOff && rng.Intn(2) == 0 // ... and a third also yield in front of acquisitions made under another lock
 	if stalls && rng.Intn(3) == 0 {
 		k.StallMax = 1 + rng.Intn(5)
 		k.StallDelta = time.Duration(1+rng.Intn(20)) * time.Millisecond
@@ -74,7 +75,11 @@ func healthyAfter(rng *rand.Rand, d time.Duration, hcTimeout time.Duration) []Ph
 		return nil
 	}
 	var bad Phase
-	switch rng.Intn(5) {
+	switch rng.Intn(7) {
+	case 5:
+		bad = Phase{Kind: "cutbody", Status: pick(rng, 500, 503, 404)}
+	case 6:
+		bad = Phase{Kind: "stallbody", Status: pick(rng, 500, 503, 404)}
 	case 0:
 		bad = Phase{Kind: "refuse"}
 	case 1:
@@ -122,7 +127,7 @@ func addCensus(sc *Scenario) {
 	for _, a := range sc.Actors {
 		for _, o := range a.Ops {
 			switch o.Kind {
-			case "request", "sleep", "observe", "census", "certs":
+			case "request", "sleep", "observe", "census", "certs", "probe_mode":
 			default:
 				total++
 			}
